@@ -168,6 +168,7 @@ class Ev:
         self.depth, self.frame = depth, frame
         self.top = top or self         # the function the findings are attributed to
         self.site = {}
+        self.skip = ()                 # texts of tests whose own path fact must not be consulted (the hypothesis under judgement)
 
     # ------------------------------------------------------------------ state helpers
     def q(self, name):
@@ -266,7 +267,12 @@ class Ev:
             return None
         if isinstance(e, (ast.BoolOp, ast.UnaryOp, ast.Compare)):
             b = self.eval3(e, st)
-            return ('bool', b) if b is not None else None
+            if b is not None:
+                return ('bool', b)
+            if isinstance(e, (ast.BoolOp, ast.UnaryOp)) and pyflow._pure_test(e) and \
+                    not any(isinstance(n, ast.Name) and (self.get(st, self.q(n.id)) or ('sym',))[0] not in ('sym', 'bool') for n in ast.walk(e)):
+                return ('sym', ast.unparse(e))      # decided later, from what the path learns about its parts
+            return None
         if isinstance(e, ast.IfExp):
             t = self.eval3(e.test, st)
             if t is not None:
@@ -285,6 +291,13 @@ class Ev:
             a = assume(e)
             if a is not None:
                 return a
+        if not isinstance(e, (ast.Constant, ast.UnaryOp)):
+            # what the path already knows about exactly this test
+            t = ast.unparse(e)
+            if t not in self.skip:
+                for f in st:
+                    if f[0] == '?' and f[1] == t:
+                        return f[2]
         if isinstance(e, ast.Constant):
             return bool(e.value)
         if isinstance(e, ast.UnaryOp) and isinstance(e.op, ast.Not):
@@ -328,6 +341,8 @@ class Ev:
                 return None
             if v[0] == 'bool':
                 return v[1]
+            if v[0] == 'sym':
+                return self.eval3(ast.parse(v[1], mode='eval').body, st, assume)
             if v == ('none',):
                 return False
             if v == ('rt',):
@@ -348,9 +363,54 @@ class Ev:
         return None
 
     def refine(self, test, truth, st):
-        v = self.eval3(test, st)
+        # pyflow has already added the hypothesis (the test and its conjuncts) to the state: judge it without them
+        self.skip = {ast.unparse(n) for n in ast.walk(test) if isinstance(n, ast.expr)}
+        try:
+            v = self.eval3(test, st)
+        finally:
+            self.skip = ()
         if v is not None and v != truth:
             return None
+        st2 = self.learn(test, truth, st)
+        if st2 is None:
+            return None
+        if st2 != st or any(isinstance(n, ast.Name) and (self.get(st, self.q(n.id)) or ('',))[0] == 'sym' for n in ast.walk(test)):
+            # earlier decisions about symbolic locals must still be possible with what has been learnt since
+            for f in st2:
+                if f[0] == '?' and any((self.get(st2, self.q(nm)) or ('',))[0] == 'sym' for nm in f[3] if '.' not in nm):
+                    self.skip = {f[1]}
+                    try:
+                        w = self.eval3(ast.parse(f[1], mode='eval').body, st2)
+                    except SyntaxError:
+                        w = None
+                    finally:
+                        self.skip = ()
+                    if w is not None and w != f[2]:
+                        return None
+        return st2
+
+    def learn(self, test, truth, st):
+        """a local that holds an undecided boolean expression was tested: its conjuncts / disjuncts are now known on this path"""
+        if isinstance(test, ast.UnaryOp) and isinstance(test.op, ast.Not):
+            return self.learn(test.operand, not truth, st)
+        if isinstance(test, ast.BoolOp):
+            if (isinstance(test.op, ast.And) and truth) or (isinstance(test.op, ast.Or) and not truth):
+                for x in test.values:
+                    st = self.learn(x, truth, st)
+                    if st is None:
+                        return None
+            return st
+        if isinstance(test, ast.Name):
+            v = self.get(st, self.q(test.id))
+            if v and v[0] == 'sym':
+                return self.learn(ast.parse(v[1], mode='eval').body, truth, st)
+            return st
+        if pyflow._pure_test(test):
+            t = ast.unparse(test)
+            nm = frozenset(pyflow._names_in(test))
+            if ('?', t, not truth, nm) in st:
+                return None
+            return frozenset(st) | {('?', t, truth, nm)}
         return st
 
     # ------------------------------------------------------------------ findings
@@ -368,14 +428,17 @@ class Ev:
         for f in st:
             if f[0] != '?':
                 continue
-            if not NOGIL_ATOM.search(f[1]):
-                continue
             try:
                 e = ast.parse(f[1], mode='eval').body
             except SyntaxError:
                 continue
-            v = self.eval3(e, st, assume)
-            if v is not None and v != f[2]:
+            self.skip = {f[1]}
+            try:
+                v = self.eval3(e, st, assume)
+                plain = self.eval3(e, st)
+            finally:
+                self.skip = ()
+            if v is not None and v != f[2] and plain is None:
                 return True
         return False
 
@@ -390,20 +453,21 @@ class Ev:
                     e = ast.parse(f[1], mode='eval').body
                 except SyntaxError:
                     continue
-                if self.eval3(e, st) is None:
+                self.skip = {f[1]}
+                try:
+                    und = self.eval3(e, st) is None
+                finally:
+                    self.skip = ()
+                if und:
                     return 'type predicate on an expression that is not tied to the return type: %s' % f[1]
         return None
 
     def report(self, rule, slot_key, node, st, msg):
+        """-> a ('viol', ...) fact: the finding is carried by the path and only counts if the path survives to the end of the function
+        (a later test may show it to be infeasible); whether the path is decidable at all is judged here, with the facts known now"""
         t = self.top
         key = '%s.%s:%s' % (t.m.short, t.qn, slot_key)
-        why = self.undecided(st)
-        if why:
-            self.sink.infos.add('%s %s not decided (%s)' % (rule, key, why))
-            return
-        if (rule, key) not in self.sink.violations:
-            pt = self.path_text(st)
-            self.sink.violations[(rule, key)] = (self.m.rel, node.lineno, msg + ' [return type class: %s%s]' % (self.rtype, '; path: ' + pt if pt else ''))
+        return ('viol', rule, key, self.m.rel, node.lineno, msg, self.undecided(st))
 
     # ------------------------------------------------------------------ slots
     def slot(self, e, st):
@@ -474,23 +538,25 @@ class Ev:
         """a generated child / emitted error exit may jump to the current labels of `kinds`"""
         s = set(st)
         if self.loaded(st, ('R',)) and what != 'error exit':
-            self.report('C22-RETLIVE', 'Naming.retval_cname', node, st,
+            s.add(self.report('C22-RETLIVE', 'Naming.retval_cname', node, st,
                         '%s generates child code (%s) at a label that intercepts `return` while the result variable still holds the pending return value: '
                         'when that code raises (or leaves with break / continue and the function then ends without another return) the variable is overwritten '
-                        'and the returned object leaks, e.g. `try: return x  finally: raise E`' % (self.top.qn, node_src(node, 70)))
+                        'and the returned object leaks, e.g. `try: return x  finally: raise E`' % (self.top.qn, node_src(node, 70))))
         for f in st:
             if f[0] == 'loaded' and f[1][0] == 'temp':
                 t = f[1]
                 if ('escaped', t) in st:
                     continue
+                outer = [k for k in kinds if self.cur(st, k)[2] == 'outer']
+                if outer:
+                    s.add(self.report('C22-PARKED', self.srckey(st, t), node, st,
+                                      '%s emits %s (%s) while the unmanaged local temp %s owns the reference moved out of %s, with the enclosing %s label%s still installed: '
+                                      'a jump to %s never releases the temp (leak), e.g. `try: return x  finally: cleanup()` with a cleanup() that raises'
+                                      % (self.top.qn, what, node_src(node, 70), t[1].split('/')[-1], self.srckey(st, t), ' / '.join(outer), 's' if len(outer) > 1 else '',
+                                         'them' if len(outer) > 1 else 'it')))
                 for k in kinds:
                     lab = self.cur(st, k)
-                    if lab[2] == 'outer':
-                        self.report('C22-PARKED', self.srckey(st, t), node, st,
-                                    '%s emits %s (%s) while the unmanaged local temp %s owns the reference moved out of %s, with the enclosing %s label still installed: '
-                                    'a jump to it never releases the temp (leak), e.g. `try: return x  finally: cleanup()` with a cleanup() that raises'
-                                    % (self.top.qn, what, node_src(node, 70), t[1].split('/')[-1], self.srckey(st, t), k))
-                    elif lab[2] != '?':
+                    if lab[2] not in ('outer', '?'):
                         s.add(('owe', t, lab, self.srckey(st, t)))
         return s
 
@@ -783,6 +849,11 @@ def _evaluate_fn(ctx, m, qn, owner, fn, sink):
             return
         for st in o.normal | o.returns:
             for f in st:
+                if f[0] == 'viol':
+                    if f[6]:
+                        sink.infos.add('%s %s not decided (%s)' % (f[1], f[2], f[6]))
+                    elif (f[1], f[2]) not in sink.violations:
+                        sink.violations[(f[1], f[2])] = (f[3], f[4], f[5] + ' [return type class: %s]' % rt)
                 if f[0] == 'owe':
                     key = '%s.%s:%s' % (m.short, qn, f[3])
                     why = ev.undecided(st)
